@@ -169,8 +169,8 @@ def check_rr(ctx: Ctx, case):
 @st.composite
 def rl_cases(draw):
     n = draw(st.integers(2, 4))
-    lineup = [draw(gen.sampler_spec(kind=draw(st.sampled_from(["rseq", "uniform", "pso", "halton", "best"])), max_bs=3))
-              for _ in range(n)]
+    lineup = [draw(gen.sampler_spec(kind=draw(st.sampled_from(["rseq", "uniform", "pso", "halton", "best", "fake_halton"])), max_bs=3))
+              for _ in range(n)]   # 'fake_halton': a user's class that merely shares the library class's name
     for s in lineup:
         if s["kind"] == "best":
             s["bs"] = 1
@@ -337,10 +337,96 @@ def check_ctor(ctx: Ctx, case):
         ctx.fail("C09/ctor-scheduler", "the supplied scheduler is not the one used", sub, case)
 
 
-SUBCHECKS = {"round_robin": check_rr, "rl": check_rl, "constructor": check_ctor}
+# ---- two independent RL calibrations alive in the same process ------------------------------------------------------------
+@st.composite
+def concurrent_cases(draw):
+    def one():
+        lineup = [draw(gen.sampler_spec(kind=draw(st.sampled_from(["rseq", "uniform", "halton"])), max_bs=2)) for _ in range(3)]
+        kinds = [s_["kind"] for s_ in lineup]
+        while kinds.count("halton") > 1:
+            lineup[kinds.index("halton")]["kind"] = "uniform"
+            kinds = [s_["kind"] for s_ in lineup]
+        cfg = base_cfg(draw, lineup)
+        cfg["rl"] = {"alpha": -1, "eps": 0.0, "agent_seed": 1, "sched_seed": 2}
+        return {"cfg": cfg, "script": draw(st.lists(st.integers(0, 10), min_size=2, max_size=6)),
+                "sessions": draw(st.lists(st.integers(1, 3), min_size=1, max_size=2))}
+    return {"a": one(), "b": one()}
+
+
+def check_rl_concurrent(ctx: Ctx, case):
+    """Two calibrations, each with its own RL scheduler, agent and environment, run at the same time in two threads: each must
+    produce exactly what it produces alone (their exchanges are private to each scheduler)."""
+    import threading
+
+    from black_it.samplers.halton import HaltonSampler
+    from black_it.schedulers.rl.agents.base import Agent
+    from black_it.schedulers.rl.envs.mab import MABCalibrationEnv
+    from black_it.schedulers.rl.rl_scheduler import RLScheduler
+
+    sub = "rl_concurrent"
+    ctx.count(sub, case, True, [])
+
+    def make(c):
+        supplied = calib.make_samplers(c["cfg"])
+        n_act = len(supplied) + (0 if any(isinstance(x, HaltonSampler) for x in supplied) else 1)
+
+        class Scripted(Agent):
+            def __init__(self):
+                super().__init__(random_state=0)
+                self.k = 0
+
+            def policy(self, state):
+                a = c["script"][self.k % len(c["script"])] % n_act
+                self.k += 1
+                return a
+
+            def learn(self, state, action, reward, next_state):
+                pass
+
+        sched = RLScheduler(supplied, agent=Scripted(), env=MABCalibrationEnv(n_act), random_state=3)
+        return calib.build(c["cfg"], scheduler=sched)
+
+    def run(cal, c, out, key):
+        try:
+            for nb in c["sessions"]:
+                cal.calibrate(nb)
+            out[key] = calib.hist_snapshot(cal)
+        except BaseException as e:  # noqa: BLE001
+            out[key] = e
+
+    with guard(ctx, "C09/exception", sub, case):
+        solo = {}
+        for key in ("a", "b"):
+            with watchdog(60, "solo rl run"):
+                run(make(case[key]), case[key], solo, key)
+            if isinstance(solo[key], BaseException):
+                raise solo[key]
+        both, cals = {}, {k: make(case[k]) for k in ("a", "b")}
+        threads = [threading.Thread(target=run, args=(cals[k], case[k], both, k), daemon=True) for k in ("a", "b")]
+        for t in threads:
+            t.start()
+        for t in threads:
+            t.join(30)
+    if any(t.is_alive() for t in threads):
+        ctx.fail("C09/rl-cross-talk", "two RL calibrations with their own schedulers, run at the same time, do not finish within "
+                 "30 s although each finishes alone in well under a second (they block each other)", sub, case)
+        return
+    for k in ("a", "b"):
+        if isinstance(both.get(k), BaseException):
+            ctx.fail("C09/rl-cross-talk", f"run {k} raises {type(both[k]).__name__}: {str(both[k])[:100]} only when the other RL "
+                     "calibration runs at the same time", sub, case)
+            return
+        d = calib.hist_diff(solo[k], both[k])
+        if d:
+            ctx.fail("C09/rl-cross-talk", f"run {k} alone and run {k} next to another RL calibration differ: {d}", sub, case)
+            return
+
+
+SUBCHECKS = {"round_robin": check_rr, "rl": check_rl, "constructor": check_ctor, "rl_concurrent": check_rl_concurrent}
 
 
 def run(ctx: Ctx):
     drive(ctx, "constructor", ctor_cases(), check_ctor, ctx.n(400, 2000))
     drive(ctx, "round_robin", rr_cases(), check_rr, ctx.n(1600, 12000))
     drive(ctx, "rl", rl_cases(), check_rl, ctx.n(1200, 10000), flaky_is_violation=True)
+    drive(ctx, "rl_concurrent", concurrent_cases(), check_rl_concurrent, ctx.n(120, 1200), shrink=False, flaky_is_violation=True)
